@@ -182,9 +182,13 @@ def case_finite(ctx, i):
                     ctx.count('op.swap_sites')
                 else:
                     perm_arg = [int(x) for x in rng.permutation(L)]
-                    steps.append(['permute_sites', perm_arg])
-                    psi.permute_sites(perm_arg, trunc_par={'chi_max': 10000, 'svd_min': 1e-14, 'trunc_cut': None})
+                    # swap_op: 'auto' (fermionic signs), None (plain relabelling, no signs), 'autoInv' (signs and a factor -i
+                    # per fermion in every swap)
+                    swap_mode = ['auto', 'auto', None, 'autoInv'][int(rng.integers(4))]
+                    steps.append(['permute_sites', perm_arg, {'swap_op': swap_mode}])
+                    psi.permute_sites(perm_arg, swap_op=swap_mode, trunc_par={'chi_max': 10000, 'svd_min': 1e-14, 'trunc_cut': None})
                     ctx.count('op.permute_sites')
+                    ctx.count('op.permute_sites.swap_op=%s' % swap_mode)
                     # implemented (and unit-tested) convention: old site i moves to position perm[i]
                     # (the docstring states the inverse); new site j therefore holds old site argsort(perm)[j]
                     perm = [int(x) for x in np.argsort(perm_arg)]
@@ -200,7 +204,11 @@ def case_finite(ctx, i):
                         if perm[a] > perm[b]:
                             pa = par[perm[a]].reshape([-1 if x == perm[a] else 1 for x in range(L)])
                             pb = par[perm[b]].reshape([-1 if x == perm[b] else 1 for x in range(L)])
-                            sign = sign * (1 - 2 * (pa * pb))
+                            # (bubble sort: every inverted pair is swapped exactly once)
+                            if op == 'swap_sites' or swap_mode == 'auto':
+                                sign = sign * (1 - 2 * (pa * pb))
+                            elif swap_mode == 'autoInv' and np.any(pa * pb):  # (pairs with a bosonic site: plain relabelling)
+                                sign = sign * (1 - 2 * (pa * pb)) * (-1.j)**pa * (-1.j)**pb
                 new = np.transpose(ref * sign, perm)
                 ref = new
                 sites = [sites[p] for p in perm]
@@ -346,6 +354,25 @@ def final_copies(ctx, psi, ref, case, rng):
                 ctx.violation('get_grouped_mps:state-differs', '', case)
             if not (np.linalg.norm(dense.finite_vector(psi) - before) <= 1e-12 * max(1.0, np.linalg.norm(before))):
                 ctx.violation('get_grouped_mps:changes-the-original', '', case)
+            # group_split with a truncation: the returned error accounts for every truncation made (infidelity <= sum of the
+            # discarded weights up to higher orders; same bound as for compress)
+            if max(psi.chi + [1]) >= 3 and g.L >= 2:
+                g2 = psi.get_grouped_mps(n)
+                chi_t = int(rng.integers(1, max(psi.chi)))
+                err = g2.group_split(trunc_par={'chi_max': chi_t, 'svd_min': 1e-14, 'trunc_cut': None})
+                ctx.count('op.group_split_truncating')
+                v2 = dense.finite_vector(g2).reshape(-1)
+                b = before.reshape(-1)
+                infid = 1. - abs(np.vdot(b, v2))**2 / max(np.vdot(b, b).real * np.vdot(v2, v2).real, 1e-300)
+                eps = float(getattr(err, 'eps', np.nan))
+                if not (infid <= 3 * eps + 1e-9):
+                    ctx.violation('group_split:returned-truncation-error-too-small', 'chi_max %d (bond dimensions %r): infidelity %r but '
+                                  'reported eps %r' % (chi_t, psi.chi, infid, eps), case)
+                elif infid > 1e-6:
+                    ctx.count('op.group_split_truncating.significant')
+                inner = [c for k, c in enumerate(g2.chi, start=1) if k % n != 0]  # (only bonds inside a group are re-created)
+                if max(inner + [1]) > max(chi_t, 1):
+                    ctx.violation('group_split:chi_max-ignored', 'chi %r > chi_max %d on a split bond' % (g2.chi, chi_t), case)
         if L >= 3:
             first = int(rng.integers(0, L - 1))
             last = int(rng.integers(first + 1, L)) if first > 0 or rng.random() < 0.5 else int(rng.integers(1, L - 1))
